@@ -48,7 +48,7 @@ Inductive cphase :=
 | CBypass (k : key) (pend : option wres) (canc : bool).           (* maxsize = 0: inside the wrapped function, no cache *)
 
 Inductive op :=
-| Call (c : cid) (a : nat)          (* a = 2 * argument value + (1 if the argument is a float) *)
+| Call (c : cid) (a : nat)          (* a = code of the call in the catalogue `call_of` *)
 | CallX (c : cid) (a : nat)         (* the same, inside an already cancelled scope *)
 | WrappedReturns (c : cid) (v : val)
 | WrappedRaises (c : cid) (e : nat)
@@ -216,7 +216,82 @@ Definition dead_left (k : key) (d : list slot) : bool :=
   end.
 
 (* ---------- small helpers ---------- *)
-Definition key_of (cf : cfg) (a : nat) : key := if typed cf then a else Nat.div2 a.
+(* ---------- construction of the cache key (functools.py:149-157) ----------
+   A call is a list of positional arguments and a list of keyword arguments in call order; an argument is a
+   number together with its Python type (values of different types compare and hash equal: 1 == 1.0 == True ==
+   Decimal(1) == Fraction(1)).  The key is the flat tuple  args + (SEP, name1, value1, ...) [+ types of args +
+   (SEP, types of the keyword values) if typed];  its items are compared with ==. *)
+Inductive aty := TInt | TFloat | TBool | TDec | TFrac.
+Record argv := mkarg { av : nat; aty_of : aty }.
+Record calld := mkcall { cpos : list argv; ckws : list (nat * argv) }.
+Inductive katom := KVal (v : nat) | KSep | KName (n : nat) | KTy (t : aty).
+
+Definition make_key (ty : bool) (c : calld) : list katom :=
+  map (fun a => KVal (av a)) (cpos c) ++
+  match ckws c with
+  | [] => []
+  | _ => KSep :: flat_map (fun na => [KName (fst na); KVal (av (snd na))]) (ckws c)
+  end ++
+  (if ty then
+     map (fun a => KTy (aty_of a)) (cpos c) ++
+     match ckws c with
+     | [] => []
+     | _ => KSep :: map (fun na => KTy (aty_of (snd na))) (ckws c)
+     end
+   else []).
+
+Definition aty_eqb (a b : aty) : bool :=
+  match a, b with
+  | TInt, TInt | TFloat, TFloat | TBool, TBool | TDec, TDec | TFrac, TFrac => true
+  | _, _ => false
+  end.
+
+Definition katom_eqb (a b : katom) : bool :=
+  match a, b with
+  | KVal v, KVal w => Nat.eqb v w
+  | KSep, KSep => true
+  | KName n, KName m => Nat.eqb n m
+  | KTy s, KTy t => aty_eqb s t
+  | _, _ => false
+  end.
+
+Fixpoint keyt_eqb (a b : list katom) : bool :=
+  match a, b with
+  | [], [] => true
+  | x :: r, y :: s => andb (katom_eqb x y) (keyt_eqb r s)
+  | _, _ => false
+  end.
+
+(* the catalogue of calls the harness issues, by code (names: 0 = x, 1 = y, 2 = a, 3 = b):
+   a < 16: one positional argument a/2, int or float;  a >= 16: a - 16 = (form * 5 + type) * 4 + value *)
+Definition ty_of_code (t v : nat) : aty :=
+  match t with
+  | 0 => TInt | 1 => TFloat | 2 => if Nat.leb v 1 then TBool else TInt | 3 => TDec | _ => TFrac
+  end.
+
+Definition call_of (a : nat) : calld :=
+  if Nat.ltb a 16 then mkcall [mkarg (Nat.div2 a) (if Nat.even a then TInt else TFloat)] []
+  else
+    let b := a - 16 in
+    let v := Nat.modulo b 4 in
+    let x := mkarg v (ty_of_code (Nat.modulo (Nat.div b 4) 5) v) in
+    let one := mkarg 1 TInt in
+    match Nat.div b 20 with
+    | 0 => mkcall [x] []                          (* f(v) *)
+    | 1 => mkcall [] [(0, x)]                     (* f(x=v) *)
+    | 2 => mkcall [mkarg 2 TInt] [(1, x)]         (* f(2, y=v) *)
+    | 3 => mkcall [] [(2, x); (3, one)]           (* f(a=v, b=1) *)
+    | 4 => mkcall [] [(3, one); (2, x)]           (* f(b=1, a=v) *)
+    | _ => mkcall [x; one] []                     (* f(v, 1) *)
+    end.
+
+(* the model's key of a call: the least code of the catalogue whose call has the same key tuple *)
+Definition key_of (cf : cfg) (a : nat) : key :=
+  match find (fun a' => keyt_eqb (make_key (typed cf) (call_of a')) (make_key (typed cf) (call_of a)))
+             (seq 0 (S a)) with
+  | Some a' => a'
+  | None => a
+  end.
 
 Definition expired (exp : option nat) (t : nat) : bool :=
   match exp with Some e => Nat.leb e t | None => false end.       (* current_time() >= expires_at *)
